@@ -560,3 +560,9 @@ PROPS['C05']['bounds_text'] += '; H_bpm bind2=1: a second binding written in the
 for _t in ('quick', 'thorough'):
     PROPS['C06'][_t] = PROPS['C06'][_t] + [wspec('H_field', fields=2, len=2)]
 PROPS['C06']['covers'] = dict(PROPS['C06'].get('covers', {}), H_field=['field-selected'])
+
+# package qualifiers of copied declarations go through qualifyImport (C15: "package qualifiers rewritten to the generated
+# file's import names"): the import key must be the canonical path (added after seeded change S95)
+PROPS['C15']['quick'] = PROPS['C15']['quick'] + [wspec('H_unvendor', len=12)]
+PROPS['C15']['thorough'] = PROPS['C15']['thorough'] + [wspec('H_unvendor', len=16)]
+PROPS['C15']['covers'] = dict(PROPS['C15'].get('covers', {}), H_unvendor=['unvendor'])
